@@ -65,9 +65,11 @@ def run(ctx, replay=None):
                       % (o["attrs"], o["opt"], o["allowOther"], o["nolist"], o["subject"], o["accepted"], o["why"]),
                       {"kind": "validate", "obs": _strip(o), "clauses": o["why"]})
     e2e = _end_to_end(ctx, sample)
+    api = _through_api(ctx, sample)
     evals = sum(s["evaluations"] for s in stats)
     cov = {
         "end_to_end_histories": e2e,
+        "pairs_through_the_database_interface": api,
         "states": ctx.states, "transitions": ctx.transitions, "traces_validated_against_impl": len(rows),
         "samples": [_strip(o) for o in sample[:3]],
         "evaluations": evals,
@@ -86,6 +88,33 @@ def run(ctx, replay=None):
 
 
 NAMES = ["", "CN", "O", "C", "1.2.3.4", "OU", "L"]
+
+
+def _through_api(ctx, sample):
+    """The sampled pairs once more with the profile handed over through the database interface (FsDb.AddProfile) and the verdict
+    taken from db.AddAndSign on a fresh filesystem database: the same judge (SubjectTrace) decides."""
+    rows, seen = [], set()
+    for o in sample:
+        k = (o["nolist"], tuple(o["attrs"]), tuple(o["opt"]), o["allowOther"], tuple(o["subject"]))
+        if k in seen or not o["subject"]:
+            continue
+        seen.add(k)
+        rows.append(dict(_strip(o), id=len(rows) + 1))
+        if len(rows) >= (400 if ctx.quick else 6000):
+            break
+    ctx.driver(["c09-one", "-api", "-in", _w(ctx, rows), "-out", ctx.path("api.obs")])
+    obs = read_ndjson(ctx.path("api.obs"))
+    judged = [o for o in obs if not o.get("skipped")]
+    if len(judged) * 2 < len(obs):
+        raise CheckError("C09 interface slice: %d of %d calls failed for another reason than the profile's verdict (%s)" % (len(obs) - len(judged), len(obs),
+                         [o["skipped"] for o in obs if o.get("skipped")][:1]))
+    failed = ctx.judge("SubjectTrace", [{k: v for k, v in o.items() if k != "skipped"} for o in judged], "subjapi")
+    for o in judged:
+        if o["id"] in failed or o.get("panic"):
+            ctx.violation("AddProfile + AddAndSign(profile attrs=%s opt=%s allowOther=%s nolist=%s, subject types=%s) accepted=%s: %s"
+                          % (o["attrs"], o["opt"], o["allowOther"], o["nolist"], o["subject"], o["accepted"], failed.get(o["id"]) or o.get("panic")),
+                          {"kind": "validate-api", "obs": o, "clauses": failed.get(o["id"], [])})
+    return {"judged": len(judged), "no_list": sum(1 for o in judged if o["nolist"]), "skipped": len(obs) - len(judged)}
 
 
 def _end_to_end(ctx, sample):
